@@ -32,7 +32,9 @@ KIND_OF = {'is_int': ('int',), 'is_str': ('str', 'tenor', 'tok'), 'is_bool': ('b
            'is_date': ('dt',), 'is_num': ('int', 'float')}
 TYPE_KINDS = {'datetime.datetime': ('dt',), 'datetime.timedelta': ('td',), 'int': ('int', 'bool'), 'str': ('str', 'tenor', 'tok'),
               'bool': ('bool',), 'float': ('float',), 'list': ('list',), 'tuple': ('tuple',), 'dict': ('dict',),
-              'NaTType': (), 'du.relativedelta.relativedelta': (), 'datetime.date': ('dt',), 'type(None)': ('none',)}
+              'NaTType': (), 'du.relativedelta.relativedelta': (), 'datetime.date': ('dt',), 'type(None)': ('none',),
+              'dict_values': ('tvalues',), 'dict_keys': ('tkeys',), 'range': ('range',), 'zip': (), 'slice': ('pyslice',), 'Pattern': ('pattern',),
+              'dictable': ('table',), 'np.ndarray': (), 'pd.Series': (), 'pd.DataFrame': ()}
 
 
 class TypePreds:
